@@ -61,6 +61,18 @@ rule "third" salience 1 begin
   secret = 99
   zq = secret + 1
 end
+rule "elseonly" salience 8 begin
+  if off() {
+    nothing()
+  } else if off() {
+    nothing()
+  } else {
+    secret3 = 555
+  }
+end
+rule "other3" salience 0 begin
+  probe2(secret3)
+end
 rule "writer" salience 9 begin
   Shared.V = Shared.V + 1
 end
@@ -80,7 +92,8 @@ end
 		seen3 = append(seen3, v)
 		mu.Unlock()
 	}
-	apis := map[string]interface{}{"once": once, "probe": probe, "hold": hold, "probe2": probe2, "probe3": probe3, "Shared": shared}
+	apis := map[string]interface{}{"once": once, "probe": probe, "hold": hold, "probe2": probe2, "probe3": probe3, "Shared": shared,
+		"off": func() bool { return false }, "nothing": func() {}}
 	dc := context.NewDataContext()
 	for n, v := range apis {
 		dc.Add(n, v)
@@ -133,7 +146,7 @@ end
 				map[string]interface{}{"rule_text": text, "scenario": label})
 		}
 		if n := atomic.SwapInt64(&probed2, 0); n > 0 {
-			k.Violate("local-survives-fault/"+label, fmt.Sprintf("%s: a local assigned by a rule that then faulted (non-boolean condition) was readable by another rule execution %d time(s)", label, n),
+			k.Violate("local-survives-fault/"+label, fmt.Sprintf("%s: a local assigned by another rule (one that then faulted with a non-boolean condition, or one that assigns it only in its else branch) was readable by a rule that never assigned it, %d time(s)", label, n),
 				map[string]interface{}{"rule_text": text, "scenario": label})
 		}
 		k.Distinct("leak", label, len(got))
